@@ -591,6 +591,36 @@ theorem slot_kind_separated (env : Env) (src dst src' dst' : Bytes) (seq seq' : 
   intro h
   exact preimage_commitment_ne_ack src dst src' dst' seq seq' (hinj _ _ h)
 
+/-! ## the slot binds the WHOLE path -/
+
+/-- **slot_binds_full_path.** The hashed preimage is the whole path followed by the 32-byte slot index, for paths of
+    every length: two different paths (of any lengths — 160 bytes and more included) give different preimages, so their
+    slots can coincide only through a Keccak collision. -/
+theorem slot_binds_full_path (p p' : Bytes) (h : p ≠ p') : p ++ slotIndexWord ≠ p' ++ slotIndexWord :=
+  fun e => h (List.append_cancel_right e)
+
+/-- in terms of `slotOf`: with a collision-free hash equal slots mean equal paths (kind, chains and sequence text) -/
+theorem slotOf_eq_imp_path_eq (env : Env) (hinj : ∀ a b, env.keccak a = env.keccak b → a = b)
+    (k k' : PathKind) (src dst src' dst' : Bytes) (seq seq' : UInt64)
+    (h : slotOf env k src dst seq = slotOf env k' src' dst' seq') :
+    pathOf k src dst seq = pathOf k' src' dst' seq' :=
+  List.append_cancel_right (hinj _ _ h)
+
+/-- a path cut at any length `n` shorter than itself (a fixed-size buffer) is another preimage: the slot derived from a
+    truncated path is not the slot of the path -/
+theorem truncated_path_other_preimage (p : Bytes) (n : Nat) (hn : n < p.length) :
+    p.take n ++ slotIndexWord ≠ p ++ slotIndexWord := by
+  apply slot_binds_full_path
+  intro e
+  have := congrArg List.length e
+  simp only [List.length_take] at this
+  omega
+
+/-- the model hashes exactly `path.length + 32` bytes, whatever the path length -/
+theorem slot_preimage_length (k : PathKind) (src dst : Bytes) (seq : UInt64) :
+    (pathOf k src dst seq ++ slotIndexWord).length = (pathOf k src dst seq).length + 32 := by
+  simp [slotIndexWord]
+
 /-! ## non-vacuity: a concrete accepted proof, a sound environment, and the theorems applied to it -/
 
 namespace Example
